@@ -217,6 +217,56 @@ func c07Case(w *core.Worker, i int) {
 			viol("total-order", q1, "differs from the reference sort", ids, ref)
 		}
 	}
+	// Q2: ORDER BY behind the other clauses of the same SELECT (DISTINCT, analytic functions, GROUP BY, WHERE, sub-query):
+	// whatever rows those produce, they must come out sorted by the listed keys
+	keyNames := append([]string{}, names...)
+	perm := r.Perm(len(keyNames))
+	var permuted []string
+	for _, x := range perm {
+		permuted = append(permuted, keyNames[x])
+	}
+	pcol := keyNames[r.Intn(len(keyNames))]
+	sortedOut := func(sig, q string, v *core.Table, lim int) {
+		// output columns are looked up by name; missing key columns make the query useless for this purpose
+		pos := map[string]int{}
+		for j, h := range v.Header {
+			pos[h] = j
+		}
+		var rows [][]*string
+		for _, vr := range v.Rows {
+			row := make([]*string, len(t.Cols))
+			for j, cn := range t.Cols {
+				if p, ok := pos[cn]; ok && vr[p].T != 'N' {
+					row[j] = core.Sp(vr[p].S)
+				}
+			}
+			rows = append(rows, row)
+		}
+		for j := 0; j+1 < len(rows); j++ {
+			if rowCmp(keys, rows[j+1], rows[j]) < 0 {
+				viol(sig, q, fmt.Sprintf("output row %d %s precedes row %d %s which must sort before it", j, fmtRow(rows[j]), j+1, fmtRow(rows[j+1])), nil, nil)
+				return
+			}
+		}
+		if lim >= 0 && len(rows) > lim {
+			viol(sig+":limit", q, fmt.Sprintf("%d rows returned with LIMIT %d", len(rows), lim), nil, nil)
+		}
+	}
+	klist := strings.Join(keyNames, ", ")
+	for qi, q := range []string{
+		"SELECT DISTINCT " + strings.Join(permuted, ", ") + ", COUNT(*) OVER (PARTITION BY " + pcol + ") AS n FROM t ORDER BY " + orderBy,
+		"SELECT " + strings.Join(permuted, ", ") + ", ROW_NUMBER() OVER (PARTITION BY " + pcol + " ORDER BY id DESC) AS rn, id FROM t ORDER BY " + orderBy + " LIMIT 7",
+		"SELECT " + strings.Join(permuted, ", ") + ", COUNT(*) AS c FROM t GROUP BY " + klist + " ORDER BY " + orderBy,
+		"SELECT DISTINCT " + strings.Join(permuted, ", ") + " FROM (SELECT * FROM t WHERE id % 3 <> 0) s ORDER BY " + orderBy,
+	} {
+		if v := run(q); v != nil {
+			lim := -1
+			if qi == 1 {
+				lim = 7
+			}
+			sortedOut([]string{"order-after:distinct+analytic", "order-after:analytic+limit", "order-after:group-by", "order-after:distinct+subquery"}[qi], q, v, lim)
+		}
+	}
 	// cuts
 	type cut struct {
 		lim     string // "" none
@@ -351,7 +401,7 @@ func c07Case(w *core.Worker, i int) {
 		w.Count("cases_parallel_path", 1)
 	}
 	w.Count("queries_evaluated", int64(evaluated))
-	w.Case(core.Digest(t.CSV(), orderBy), n >= 3 && evaluated == 12)
+	w.Case(core.Digest(t.CSV(), orderBy), n >= 3 && evaluated == 16)
 }
 
 func cutSig(percent, ties, off bool) string {
